@@ -1,13 +1,13 @@
 #!/bin/bash
-# Applies every /verif/refactors/set*/patch.diff to a scratch copy of /repo and runs all claimed quick
+# Applies every patch.diff below /verif/refactors (set1..3 are bundles, set4/r1..r12 are single refactorings written by a fresh sub-agent) to a scratch copy of /repo and runs all claimed quick
 # checks on it; every check must stay silent (exit 0). Prints one line per (set, property).
 set -u
 V=/verif
 REPO=${VERIF_REPO:-/repo}
 PROPS=$(python3 -c "import json;print(' '.join(c['property_id'] for c in json.load(open('$V/MANIFEST.json'))['checks']))")
 fail=0
-for d in $V/refactors/set*/; do
-  s=$(basename $d)
+for d in $(find $V/refactors -name patch.diff | sort | xargs -n1 dirname); do
+  s=$(echo $d | sed "s#$V/refactors/##" | tr / -)
   scratch=$(mktemp -d "${TMPDIR:-/tmp}/vp-refactor-$s.XXXXXX")
   (cd "$REPO" && tar --exclude=.git -cf - .) | (cd "$scratch" && tar -xf -)
   if ! (cd "$scratch" && git apply --unsafe-paths "$d/patch.diff" 2>/dev/null || patch -s -p1 < "$d/patch.diff" >/dev/null 2>&1); then
